@@ -324,6 +324,7 @@ static int ep_open(int e, const char *how)
 		ret = mpt_connection_open(con, target, 0);
 		if (ret >= 0) tapfd = accept(ls, 0, 0);
 		close(ls);
+		unlink(sockpath[e]); sockpath[e][0] = 0;     /* the name is not needed any more */
 		if (ret < 0) return -4;
 	} else {
 		if (socketpair(AF_UNIX, is_stream ? SOCK_STREAM : SOCK_DGRAM, 0, sv) < 0) return -5;
